@@ -8,6 +8,7 @@ package main
 
 import (
 	"fmt"
+	"os"
 	"slices"
 	"time"
 )
@@ -52,6 +53,7 @@ type Explorer struct {
 	onState  func(w *World, path []Event) // optional per-state hook (C11 sweep, liveness oracles)
 	onTerminal func(w *World, path []Event)
 	stopOnViolation bool
+	clones int
 	prop string // property under check
 }
 
@@ -69,6 +71,47 @@ func (x *Explorer) replay(path []Event) *World {
 	x.res.Replays++
 	return w
 }
+
+// succ returns the successor of w by event e: a deep copy of w plus one real API call. The copy is an
+// accelerator only; the first copies of a run and a sample of the later ones are compared with the replay
+// of the whole path on fresh instances.
+func (x *Explorer) succ(w *World, path []Event, e Event) *World {
+	if noClone {
+		w2 := x.replay(path)
+		w2.apply(e)
+		return w2
+	}
+	x.clones++
+	verify := x.clones <= 200 || x.clones%211 == 0
+	w2 := w.clone()
+	if verify {
+		for _, n := range w.nodes {
+			n.fpValid = false
+		}
+		for _, n := range w2.nodes {
+			n.fpValid = false
+		}
+		if w2.key() != w.key() {
+			panic(harnessFault{"snapshot accelerator: copy differs from the original world"})
+		}
+	}
+	w2.apply(e)
+	if verify {
+		w3 := x.replay(path)
+		w3.apply(e)
+		for _, n := range w2.nodes {
+			n.fpValid = false
+		}
+		if w3.key() != w2.key() || len(w3.viol) != len(w2.viol) {
+			panic(harnessFault{fmt.Sprintf("snapshot accelerator: successor by copy differs from successor by replay after %s (path length %d)", e.String(), len(path))})
+		}
+		x.res.Extra["copy_vs_replay_checks"]++
+		curWorld = w2
+	}
+	return w2
+}
+
+var noClone = os.Getenv("VERIF_NOCLONE") != ""
 
 func (x *Explorer) check(w *World, path []Event) bool {
 	bad := false
@@ -182,9 +225,10 @@ func (x *Explorer) bfs() {
 			for i, e := range evs {
 				w2 := w
 				if i < len(evs)-1 {
-					w2 = x.replay(evp)
+					w2 = x.succ(w, evp, e)
+				} else {
+					w2.apply(e)
 				}
-				w2.apply(e)
 				x.res.Transitions++
 				np := append(append(make([]cev, 0, len(path)+1), path...), compact(e))
 				if len(w2.viol) > 0 && x.check(w2, expand(np)) {
@@ -288,7 +332,7 @@ func (x *Explorer) dfs(path []Event, w *World, budget int) {
 					continue
 				}
 				np := append(append(make([]Event, 0, len(path)+1), path...), e)
-				w2 := x.replay(np)
+				w2 := x.succ(w, path, e)
 				x.res.Transitions++
 				if x.check(w2, np) {
 					continue
